@@ -155,7 +155,8 @@ def evalAgg (g : Graph) (k : AggKind) (distinct : Bool) (arg : Expr) (rows : Lis
     return .int rows.length
   let vals ← mapM' (evalExpr g · arg) rows
   let vals := vals.filter (· != .null)
-  if !twinFree vals then throw .unspecified
+  -- integer/float twins only matter where values are compared with each other
+  if (distinct || k == .min || k == .max) && !twinFree vals then throw .unspecified
   let vals := if distinct then dedupVals vals else vals
   match k with
   | .countStar => pure (.int rows.length)
@@ -317,15 +318,43 @@ def evalQuery (g : Graph) (de : Bool) (q : Query) : Except Err Table := do
 
 /-! ## the specification on an observed result -/
 
-/-- `out` is an admissible result given the determined pre-ORDER-BY rows `P` -/
-def admissible (descs : List Bool) (skip limit : Option Nat) (P : List PRow)
+/-- `out` is an admissible result given the determined pre-ORDER-BY rows `P`, for a key
+order `le` with tie relation `eqv` -/
+def admissibleBy (le eqv : List Val → List Val → Bool) (skip limit : Option Nat) (P : List PRow)
     (out : List (List Val)) : Bool :=
-  let want := window skip limit ((sortBy (fun a b => keysLe descs a.key b.key) P).map (·.key))
+  let want := window skip limit ((sortBy (fun a b => le a.key b.key) P).map (·.key))
   let pairs := want.zip out
   out.length == want.length &&
   pairs.all fun (c, r) =>
-    decide (pairs.countP (fun (c', r') => keysEqv descs c c' && r' == r)
-      ≤ P.countP (fun pr => keysEqv descs c pr.key && pr.vals == r))
+    decide (pairs.countP (fun (c', r') => eqv c c' && r' == r)
+      ≤ P.countP (fun pr => eqv c pr.key && pr.vals == r))
+
+/-- the specification: keys ordered by Cypher's orderability -/
+def admissible (descs : List Bool) (skip limit : Option Nat) (P : List PRow)
+    (out : List (List Val)) : Bool :=
+  admissibleBy (keysLe descs) (keysEqv descs) skip limit P out
+
+/-! ### the engine's sort order (known finding `orderby-int-float-secondary-key`)
+
+`cypher_order` falls back to the index order for numbers, which never ties an integer with
+the equal float (the integer sorts first), so a later sort key is not consulted between
+`k = 1` and `k = 1.0`. -/
+
+def Val.ordCmpLegacy : Val → Val → Ordering
+  | .atom a, .atom b => Atom.canonCmp a b
+  | a, b => Val.ordCmp a b
+
+def cmpKeysLegacy : List Bool → List Val → List Val → Ordering
+  | d :: ds, a :: as, b :: bs =>
+    match (if d then Val.ordCmpLegacy b a else Val.ordCmpLegacy a b) with
+    | .eq => cmpKeysLegacy ds as bs
+    | o => o
+  | _, _, _ => .eq
+
+def admissibleLegacyTie (descs : List Bool) (skip limit : Option Nat) (P : List PRow)
+    (out : List (List Val)) : Bool :=
+  admissibleBy (fun a b => cmpKeysLegacy descs a b != .gt) (fun a b => cmpKeysLegacy descs a b == .eq)
+    skip limit P out
 
 inductive Verdict where
   | ok
@@ -333,8 +362,9 @@ inductive Verdict where
   | skip (e : Err)
 deriving DecidableEq, Repr, Inhabited
 
-/-- S evaluated on the engine's table -/
-def specQuery (g : Graph) (de : Bool) (q : Query) (out : Table) : Verdict :=
+/-- S evaluated on the engine's table (`legacyTie` = judge ORDER BY with the engine's
+integer-before-float tie-break instead: used only to *classify* a violation) -/
+def specQueryWith (legacyTie : Bool) (g : Graph) (de : Bool) (q : Query) (out : Table) : Verdict :=
   match evalClauses g de q.clauses [[]] with
   | .error e => .skip e
   | .ok rows =>
@@ -345,8 +375,13 @@ def specQuery (g : Graph) (de : Bool) (q : Query) (out : Table) : Verdict :=
       let P := P.map fun pr => { pr with vals := canonRow cc pr.vals }
       let outRows := out.rows.map (canonRow cc)
       if out.cols != q.ret.items.map Item.alias then .viol "columns"
-      else if admissible q.ret.descs q.ret.skip q.ret.limit P outRows then .ok
+      else if (if legacyTie then admissibleLegacyTie q.ret.descs q.ret.skip q.ret.limit P outRows
+               else admissible q.ret.descs q.ret.skip q.ret.limit P outRows) then .ok
       else if outRows.length != (window q.ret.skip q.ret.limit P).length then .viol "row-count"
       else .viol "rows"
+
+/-- S evaluated on the engine's table -/
+def specQuery (g : Graph) (de : Bool) (q : Query) (out : Table) : Verdict :=
+  specQueryWith false g de q out
 
 end SgModel.Cy
